@@ -163,10 +163,8 @@ func runReaderHistory(c *ReaderCase, cv *cov, checkLive bool, hooks *readerHooks
 						v = evid.Failf("step %d %s(%d): error %v does not match the source error %v", step, op.K, op.N, err, srcErr)
 						return
 					}
-					if len(b) != 0 {
-						v = evid.Failf("step %d %s(%d): returned %d bytes together with error %v", step, op.K, op.N, len(b), err)
-						return
-					}
+					// what the returned slice holds on failure is not part of the statement (bufio-style readers
+					// return the available bytes with the error); only "nothing consumed" is, via ReadLen below
 					sawErr = true
 				}
 			case "skip":
@@ -229,7 +227,9 @@ func runReaderHistory(c *ReaderCase, cv *cov, checkLive bool, hooks *readerHooks
 					v = evid.Failf("step %d readbin(%d): short read of %d bytes with nil error", step, op.N, m)
 					return
 				}
-				if op.N <= avail && (m != op.N || err != nil) {
+				// a full read may carry the source error only when it consumed the very last byte before it
+				// (io.Reader convention: data first, then the error); anywhere else err must be nil
+				if op.N <= avail && (m != op.N || (err != nil && !(op.N > 0 && pos+m == errAt && errors.Is(err, srcErr)))) {
 					v = evid.Failf("step %d readbin(%d): %d bytes available but got m=%d err=%v", step, op.N, avail, m, err)
 					return
 				}
@@ -314,6 +314,9 @@ func runReaderHistory(c *ReaderCase, cv *cov, checkLive bool, hooks *readerHooks
 				break
 			}
 			if err != nil {
+				if pos == errAt && errors.Is(err, srcErr) {
+					break // the source error delivered together with the last full chunk
+				}
 				v = evid.Failf("drain: full read of %d bytes returned err=%v", m, err)
 				return
 			}
